@@ -57,6 +57,8 @@ impl Node {
             &&& dt_ok(self.sp_start_time()) && dt_ok(self.sp_end_time())
             &&& dt_small(self.sp_start_time()) && dt_small(self.sp_end_time())
             &&& dt_lt(self.sp_start_time(), self.sp_end_time())
+            // activities take place at stations (only the overflow depot is Nowhere)
+            &&& self.sp_start_location() is Station && self.sp_end_location() is Station
         }
         &&& (self.sp_travel_distance() is Distance && self.sp_travel_distance()->Distance_0 <= 0x100_0000_0000)
     }
@@ -77,7 +79,7 @@ impl Locations {
                 &&& self.dead_head_trips@.contains_key(a)
                 &&& self.dead_head_trips@[a]@.contains_key(b)
                 &&& dur_small(self.sp_trip(a, b).travel_time)
-                &&& (self.sp_trip(a, b).distance is Distance ==> self.sp_trip(a, b).distance->Distance_0 <= 0x100_0000_0000)
+                &&& self.sp_trip(a, b).distance is Distance && self.sp_trip(a, b).distance->Distance_0 <= 0x100_0000_0000
             }
     }
     /// documented semantics: the table entry between two stations, infinitely far from/to Nowhere
